@@ -63,12 +63,26 @@ def wsum(weight, coupling):
     return einsum('ij,ij->i', weight, coupling)
 """
 
+# element-wise maximum / minimum: torch.maximum/minimum only accept tensors, whereas model equations may compare a variable
+# with a number (maxi(x, 0.2))
+maxi = """
+def maxi(a, b):
+    dtype = a.dtype if hasattr(a, 'dtype') else (b.dtype if hasattr(b, 'dtype') else None)
+    return maximum(as_tensor(a, dtype=dtype), as_tensor(b, dtype=dtype))
+"""
+
+mini = """
+def mini(a, b):
+    dtype = a.dtype if hasattr(a, 'dtype') else (b.dtype if hasattr(b, 'dtype') else None)
+    return minimum(as_tensor(a, dtype=dtype), as_tensor(b, dtype=dtype))
+"""
+
 # dictionary for backend import
 ###############################
 
 torch_funcs = {
-    'maxi': {'call': 'maximum', 'func': np.maximum, 'imports': ['torch.maximum']},
-    'mini': {'call': 'minimum', 'func': np.minimum, 'imports': ['torch.minimum']},
+    'maxi': {'call': 'maxi', 'func': np.maximum, 'def': maxi, 'imports': ['torch.maximum', 'torch.as_tensor']},
+    'mini': {'call': 'mini', 'func': np.minimum, 'def': mini, 'imports': ['torch.minimum', 'torch.as_tensor']},
     'round': {'call': 'round', 'func': np.round, 'imports': ['torch.round']},
     'vsum': {'call': 'sum', 'func': np.sum, 'imports': ['torch.sum']},
     'mean': {'call': 'mean', 'func': np.mean, 'imports': ['torch.mean']},
